@@ -384,6 +384,18 @@ def run_placement_case(scheme, cid, cfg, db, acc, rng, forked=False):
                     acc.count("dp17.inbucket_pairs")
                     if members[0][1] < members[1][1]:
                         acc.count("dp17.inbucket_pairs_in_input_order")
+    if scheme != "DP17.Pi":
+        # adjacency statistic (decided over the whole run in finish()): how often do two blocks that a search reads one
+        # after the other sit in NEIGHBOURING cells of the same array?  Random placement: about 2 / (cells - 1) of the
+        # pairs. Sequential allocation from a random or key-derived start moves everything between two setups, so the
+        # comparison below does not see it, but nearly every pair is then adjacent.
+        for mp in (m1, m2):
+            for slots in mp.values():
+                for (n1, i1), (n2, i2) in zip(slots, slots[1:]):
+                    if n1 == n2 and isinstance(i1, int) and isinstance(i2, int) and i1 != i2:
+                        acc.count("adjacency.pairs." + short)
+                        if abs(i1 - i2) == 1:
+                            acc.count("adjacency.neighbouring." + short)
     nslots = sum(len(v) for v in m1.values())
     if nslots < 12:
         acc.count("placement.too_few_blocks")
@@ -596,6 +608,20 @@ def finish(m, tier, seed):
                            "case": {"pairs": pairs, "in_input_order": inorder}})
     elif pairs < 100:
         inc.append(f"DP17 in-bucket order statistic saw only {pairs} shared buckets")
+    adjacency = {}
+    for sname in ("CJJ14.PiPtr", "CJJ14.Pi2Lev", "CGKO06.SSE1"):
+        short = gen.SHORT[sname]
+        ap, an = c.get("adjacency.pairs." + short, 0), c.get("adjacency.neighbouring." + short, 0)
+        adjacency[short] = {"consecutive_reads_in_one_array": ap, "in_neighbouring_cells": an}
+        if ap < 200:
+            inc.append(f"{short}: adjacency statistic saw only {ap} pairs of consecutively read blocks")
+        elif an >= 0.6 * ap:
+            # arrays have >= 13 cells: under random placement P[neighbouring] <= 2/12 per pair, P[>= 120 of 200] < 1e-40
+            violations.append({"signature": f"{short}:blocks-read-consecutively-sit-in-neighbouring-cells",
+                               "message": f"{sname}: {an} of {ap} pairs of blocks that a search reads one after the other "
+                                          f"sit in neighbouring cells of the array (positions follow the allocation order "
+                                          f"from some start, not a random choice)",
+                               "case": {"pairs": ap, "neighbouring": an, "scheme": sname}})
     cov = {
         "evaluations": c.get("cases", 0),
         "distinct_nontrivial": len(m["sets"].get("distinct", [])),
@@ -618,6 +644,7 @@ def finish(m, tier, seed):
         "placement_pairs_built_in_twin_interpreters": c.get("placement.twin_pairs", 0),
         "placement_cases_preceded_by_the_all_scheme_prelude": c.get("placement.with_prelude", 0),
         "tables_with_more_than_65536_entries": c.get("big_table_cases", 0),
+        "adjacency_of_consecutively_read_blocks": adjacency,
         "dp17_shared_buckets": pairs,
         "dp17_shared_buckets_in_input_order": inorder,
     }
